@@ -465,15 +465,15 @@ mutant("c17-and-right-assoc", ["C17", "C06"], (F, """                np.logical_
                 arity=2,
                 precedence=p(4),
                 associativity=1,"""), "T1/FunctionFactory/and")
-mutant("c17-pop-rule-lt", ["C17", "C06"], (T, "if (element.associativity < 0 and element.precedence <= top.precedence) or (", "if (element.associativity < 0 and element.precedence < top.precedence) or ("), "G1/")
-mutant("c17-pop-rule-right-le", ["C17", "C06"], (T, "element.associativity > 0 and element.precedence < top.precedence", "element.associativity > 0 and element.precedence <= top.precedence"), "G1/")
+mutant("c17-pop-rule-lt", ["C17", "C06"], (T, "if (element.associativity < 0 and element.precedence <= top.precedence) or (", "if (element.associativity < 0 and element.precedence < top.precedence) or ("), "PD/Function.infix_to_postfix/transducer")
+mutant("c17-pop-rule-right-le", ["C17", "C06"], (T, "element.associativity > 0 and element.precedence < top.precedence", "element.associativity > 0 and element.precedence <= top.precedence"), "PD/Function.infix_to_postfix/transducer")
 mutant("c17-parse-pops-left-first", "C17", (T, """                if element.arity >= 1:
                     node.right = stack.pop()
                 if element.arity == 2:
                     node.left = stack.pop()""", """                if element.arity == 2:
                     node.left = stack.pop()
                 if element.arity >= 1:
-                    node.right = stack.pop()"""), "W2/Function.parse")
+                    node.right = stack.pop()"""), "PD2/Function.parse/tree")
 mutant("c17-evaluate-swaps-operands", "C17", (T, """                    result = self.element.method(
                         self.left.evaluate(local_variables),
                         self.right.evaluate(local_variables),
@@ -481,7 +481,7 @@ mutant("c17-evaluate-swaps-operands", "C17", (T, """                    result =
                         self.right.evaluate(local_variables),
                         self.left.evaluate(local_variables),
                     )"""), "W2/Function.Node.evaluate")
-mutant("c17-arity-check-off-by-one", ["C17", "C16"], (T, "                if element.arity > len(stack):", "                if element.arity > len(stack) + 1:"), "X3/Function.parse/arity-guard")
+mutant("c17-arity-check-off-by-one", ["C17", "C16"], (T, "                if element.arity > len(stack):", "                if element.arity > len(stack) + 1:"), "PD2/Function.parse")
 mutant("c17-comma-no-stack-check", ["C17", "C16"], (T, """                while stack and stack[-1] != "(":
                     queue.append(stack.pop())
                 if not stack or stack[-1] != "(":
@@ -490,12 +490,12 @@ mutant("c17-comma-no-stack-check", ["C17", "C16"], (T, """                while 
             elif element and element.is_operator():""", """                while stack[-1] != "(":
                     queue.append(stack.pop())
 
-            elif element and element.is_operator():"""), "X")
+            elif element and element.is_operator():"""), "PD/Function.infix_to_postfix")
 mutant("c17-single-root-check-dropped", ["C17", "C16"], (T, """        if len(stack) != 1:
             raise SyntaxError(f"invalid formula: '{formula}'")
 """, """        if len(stack) < 1:
             raise SyntaxError(f"invalid formula: '{formula}'")
-"""), "X6/Function.parse/single-root")
+"""), "PD2/Function.parse/single-root")
 mutant("c17-own-x-check-dropped", "C17", (T, """        if "x" in self.variables:
             raise ValueError(
                 "variable 'x' is reserved for internal use of Function term, please "
@@ -640,7 +640,7 @@ mutant("c06-any-applies-term", "C06", (R, """                if isinstance(node.
                     for hedge in reversed(node.hedges):
                         result = hedge.hedge(result)
                     return result"""), "P9/Antecedent.activation_degree/any")
-mutant("c06-operands-reversed-queue", "C06", (T, '        postfix = " ".join(queue)', '        postfix = " ".join(reversed(queue))'), "X7/")
+mutant("c06-operands-reversed-queue", "C06", (T, '        postfix = " ".join(queue)', '        postfix = " ".join(reversed(queue))'), "PD/Function.infix_to_postfix/end-of-input")
 
 # ------------------------------------------------------------------------------------------ C18
 GRID = """            k = max(1, round(pow(values, (1.0 / inputs))))
